@@ -16,16 +16,47 @@ Fixpoint solo_secs {Cell Res} (secs : list (section Cell Res)) (cs : bytes -> Ce
   end.
 
 (* With or without the locking wrapper, for ANY interleaving at backend-call granularity: if
-   the connections work on pairwise disjoint key sets, each one observes exactly the results
-   of its solo run, and the final cells are those of the solo runs. *)
+   the connections work on pairwise disjoint key sets, each one that has completed all its
+   commands ([~ unfinished]: quiescence alone allows commands never invoked) observed exactly
+   the results of its solo run, and the final cells of its keys are those of its solo run. *)
 Theorem c14_noninterference :
   forall (Cell Res : Type) (slot_of : bytes -> N) (multi_reader locking : bool)
          (st0 st : state Cell Res) (ls : list (label Cell Res)),
   initial Cell Res st0 ->
   (forall t u k, t <> u -> thread_keys st0 t k -> ~ thread_keys st0 u k) ->
   exec Cell Res slot_of multi_reader locking st0 ls st -> no_panic Cell Res ls -> quiescent Cell Res st ->
-  forall t todo, thr Cell Res st0 t = TIdle Cell Res todo [] ->
+  forall t todo, thr Cell Res st0 t = TIdle Cell Res todo [] -> ~ unfinished Cell Res st t ->
     let '(cs', xs) := solo_secs (concat todo) (cells Cell Res st0) in
     observed Cell Res ls t = xs /\ (forall k, thread_keys st0 t k -> cells Cell Res st k = cs' k).
 Proof. exact noninterference. Qed.
 Print Assumptions c14_noninterference.
+
+(* non-vacuity: two connections on different keys *)
+Example c14_premises_satisfiable :
+  let sec k := @mkSec unit nat k true (CRet 0%nat) in
+  let st0 := mkSt unit nat (fun _ => tt)
+               (fun t => match t with
+                         | O => TIdle unit nat [[sec [1]]] []
+                         | S O => TIdle unit nat [[sec [2]]] []
+                         | _ => TIdle unit nat [] []
+                         end) in
+  initial unit nat st0 /\ (forall t u k, t <> u -> thread_keys st0 t k -> ~ thread_keys st0 u k) /\
+  thread_keys st0 0%nat [1] /\ thread_keys st0 1%nat [2].
+Proof.
+  cbn zeta.
+  assert (K : forall t k, thread_keys (mkSt unit nat (fun _ => tt)
+               (fun t => match t with
+                         | O => TIdle unit nat [[@mkSec unit nat [1] true (CRet 0%nat)]] []
+                         | S O => TIdle unit nat [[@mkSec unit nat [2] true (CRet 0%nat)]] []
+                         | _ => TIdle unit nat [] []
+                         end)) t k -> (t = 0%nat /\ k = [1]) \/ (t = 1%nat /\ k = [2])).
+  { intros t k (todo & done & c & s & E & Ic & Is & Ek). destruct t as [|[|t]]; cbn in E; inversion E; subst; clear E.
+    - destruct Ic as [<-|[]]. destruct Is as [<-|[]]. left. auto.
+    - destruct Ic as [<-|[]]. destruct Is as [<-|[]]. right. auto.
+    - destruct Ic. }
+  split. { intros [|[|t]]; eexists; reflexivity. }
+  split.
+  - intros t u k N Ht Hu. apply K in Ht. apply K in Hu.
+    destruct Ht as [[-> ->]|[-> ->]], Hu as [[-> E]|[-> E]]; congruence.
+  - split; do 4 eexists; (split; [reflexivity|]); (split; [left; reflexivity|]); (split; [left; reflexivity|reflexivity]).
+Qed.
